@@ -692,17 +692,38 @@ def _legal(script):
                 alive |= set(o["m"])
                 nxt += o["n"]
             elif o["op"] == "Del":
-                if not set(o["m"]) <= alive or len(alive) - len(o["m"]) < 1:
+                if not set(o["m"]) <= alive:
                     return False
                 alive -= set(o["m"])
             elif not set(o["m"]) <= alive:
                 return False
+        if not alive:
+            return False  # a segment must end with at least one mode (the register may be empty in between)
     return True
 
 
-def _renumber_after_drop(segs):
-    """dropping a New shifts later indices: renumber so that News stay consecutive; returns new segs or None"""
-    return segs
+def _renumber(segs):
+    """after dropping a New (or changing the initial size) later indices shift: renumber every mode so that the initial modes and the
+    News stay consecutive in creation order; ops on modes that no longer exist are dropped.  Returns new segs (or None if nothing is left)"""
+    n0 = segs[0].get("n")
+    mapping = {i: i for i in range(n0)}
+    nxt = n0
+    out = []
+    for sg in segs:
+        ops = []
+        for o in sg["ops"]:
+            if o["op"] == "New":
+                new_m = list(range(nxt, nxt + o["n"]))
+                for old_i, new_i in zip(o["m"], new_m):
+                    mapping[old_i] = new_i
+                nxt += o["n"]
+                ops.append(dict(o, m=new_m))
+            else:
+                if not all(m_ in mapping for m_ in o["m"]):
+                    continue
+                ops.append(dict(o, m=[mapping[m_] for m_ in o["m"]]))
+        out.append(dict(sg, ops=ops))
+    return out
 
 
 def shrink(script):
@@ -721,6 +742,11 @@ def shrink(script):
             c = dict(script, segs=segs[:i] + [dict(s, ops=cand)] + segs[i + 1:])
             if _legal(c):
                 yield c
+            else:
+                # dropping a New (or a Del that a later op relied on): renumber / drop dependents and try that
+                c2 = dict(script, segs=_renumber(c["segs"]))
+                if _legal(c2):
+                    yield c2
     if script["invalid"]:
         for cand in ddmin_list(script["invalid"], 0):
             yield dict(script, invalid=cand)
